@@ -602,6 +602,10 @@ func (p *Program) judge(fr *FuncResult, model map[string]string, oc *outcome, wo
 	fn := ex.Fn
 	// term construction below must see this function's definitions (not those of the function verified last)
 	CurDefs = map[string]*Term{}
+	SymRanges = ex.SymRangesMap
+	if SymRanges == nil {
+		SymRanges = map[string][2]*big.Int{}
+	}
 	for _, d := range ex.Defs {
 		CurDefs[d.Name] = d.T
 	}
